@@ -1,4 +1,5 @@
 import Propka.Model.Groups
+import Propka.Model.ResList
 /-! # C14 — titrate_only restricts titration exactly to the listed residues
 
 `mkGroup` / `extractGroups` are the model of `is_group` + `Group.setup` + `init_group` (the only
@@ -97,3 +98,97 @@ theorem list_as_set (T : Tables) (L L' : List Key) (atoms : List AtomInfo)
 example : keyOf ⟨"atom", "CG", "ASP", "A", 52, "A", "", 0, false⟩ ≠ keyOf ⟨"atom", "CG", "ASP", "A", 52, " ", "", 0, false⟩ := by decide
 
 end Propka.Groups
+
+/-! ## the text of the option: `chain:resnum[inscode]`, comma separated -/
+namespace Propka.ResList
+open Propka.Py
+deriving instance DecidableEq for Except
+
+theorem splitOn_cons (sep c : Char) (cs : Str) :
+    splitOn sep (c :: cs) = match splitOn sep cs with
+      | [] => [[]]
+      | p :: ps => if c = sep then [] :: p :: ps else (c :: p) :: ps := by
+  rw [splitOn]; rfl
+
+theorem splitOn_ne_nil (sep : Char) (s : Str) : splitOn sep s ≠ [] := by
+  induction s with
+  | nil => simp [splitOn]
+  | cons c cs ih =>
+    unfold splitOn
+    split
+    · simp
+    · split <;> simp
+
+theorem splitOn_free (sep : Char) (a : Str) (h : sep ∉ a) : splitOn sep a = [a] := by
+  induction a with
+  | nil => rfl
+  | cons c cs ih =>
+    have hc : c ≠ sep := fun e => h (by simp [e])
+    have hcs : sep ∉ cs := fun e => h (List.mem_cons_of_mem _ e)
+    unfold splitOn
+    rw [ih hcs]
+    simp [hc]
+
+theorem splitOn_append (sep : Char) (a b : Str) (h : sep ∉ a) : splitOn sep (a ++ sep :: b) = a :: splitOn sep b := by
+  induction a with
+  | nil =>
+    show splitOn sep (sep :: b) = [] :: splitOn sep b
+    rw [splitOn_cons]
+    cases hb : splitOn sep b with
+    | nil => exact absurd hb (splitOn_ne_nil sep b)
+    | cons p ps => simp
+  | cons c cs ih =>
+    have hc : c ≠ sep := fun e => h (by simp [e])
+    have hcs : sep ∉ cs := fun e => h (List.mem_cons_of_mem _ e)
+    show splitOn sep (c :: (cs ++ sep :: b)) = (c :: cs) :: splitOn sep b
+    rw [splitOn_cons, ih hcs]
+    simp [hc]
+
+/-- **An entry without insertion code**: `chain:number` is read as (chain, number, ' ') -/
+theorem entry_plain (chain num : Str) (n : Int) (hc : ':' ∉ chain) (hn : ':' ∉ num) (hp : parseInt num = some n) :
+    parseResString (chain ++ ':' :: num) = .ok (chain, n, ' ') := by
+  unfold parseResString
+  rw [splitOn_append ':' chain num hc, splitOn_free ':' num hn]
+  simp [hp]
+
+/-- **An entry with insertion code**: when the text after the colon is not a number but becomes one without its last
+    character, that character is the insertion code -/
+theorem entry_icode (chain num : Str) (ic : Char) (n : Int) (hc : ':' ∉ chain) (hn : ':' ∉ num) (hi : ic ≠ ':')
+    (hbad : parseInt (num ++ [ic]) = none) (hp : parseInt num = some n) :
+    parseResString (chain ++ ':' :: (num ++ [ic])) = .ok (chain, n, ic) := by
+  unfold parseResString
+  have hn' : ':' ∉ num ++ [ic] := by
+    intro h; rcases List.mem_append.mp h with h | h
+    · exact hn h
+    · simp at h; exact hi h.symm
+  rw [splitOn_append ':' chain _ hc, splitOn_free ':' _ hn']
+  simp [hbad, hp]
+
+/-- anything that does not have exactly one colon is rejected -/
+theorem entry_no_colon (s : Str) (h : ':' ∉ s) : parseResString s = .error .colons := by
+  unfold parseResString; rw [splitOn_free ':' s h]
+
+/-- **The list is read entry by entry**: for comma-free entries, the text `e1,e2,...` parses to the parsed entries in order
+    (and fails with the error of the first bad one) -/
+theorem list_is_mapM (es : List Str) (hne : es ≠ []) (h : ∀ e ∈ es, ',' ∉ e) :
+    parseResList (List.intercalate [','] es) = es.mapM parseResString := by
+  unfold parseResList
+  congr 1
+  induction es with
+  | nil => exact absurd rfl hne
+  | cons e rest ih =>
+    cases rest with
+    | nil => simp [List.intercalate, splitOn_free ',' e (h e (List.mem_cons_self ..))]
+    | cons e2 r2 =>
+      have := ih (by simp) (fun x hx => h x (List.mem_cons_of_mem _ hx))
+      have he : ',' ∉ e := h e (List.mem_cons_self ..)
+      show splitOn ',' (List.intercalate [','] (e :: e2 :: r2)) = e :: e2 :: r2
+      have hi : List.intercalate [','] (e :: e2 :: r2) = e ++ ',' :: List.intercalate [','] (e2 :: r2) := by
+        simp [List.intercalate, List.intersperse]
+      rw [hi, splitOn_append ',' e _ he, this]
+
+example : parseResList "E:17,E:48A,I:-5".toList = .ok [("E".toList, 17, ' '), ("E".toList, 48, 'A'), ("I".toList, -5, ' ')] := by decide
+example : parseResList "E17".toList = .error .colons := by decide
+example : parseResList "A:1,B:".toList = .error .number := by decide
+example : parseResList "A:1:2".toList = .error .colons := by decide
+end Propka.ResList
